@@ -165,6 +165,10 @@ def dedup (l : List String) : List String := l.foldl (fun acc x => if acc.contai
 def cacheClass : String := "failed-input-leaves-cached-mutable-result"
 
 def runCase (inp obs : String) : CaseResult :=
+  -- a base input ran into the wall-clock limit (generated non-terminating loop): timing dependent, void case
+  if obs == "DEADLINE" then
+    { model := "void", agree := false, stmtModel := true, stmtImpl := true, unmodelled := true,
+      tags := ["void:base-input-hit-deadline"], nontrivial := false } else
   match parseCase inp obs with
   | none => CaseResult.badLine
   | some c =>
